@@ -16,7 +16,11 @@ Local Open Scope string_scope.
 (* add(name): if name != "" { names = append(names, name) } *)
 Definition names_of (l : list qn) : list string := filter nonempty (map q_name l).
 
-(* tableNames(node): names written in the table positions of the node itself.  JoinClause.Left is never read. *)
+(* tableNames(node): names written in the table positions of the node itself.  JoinClause.Left is never read.
+   There is no case for the statements that carry a query or an expression without being queries (CreateView /
+   CreateMaterializedView / CreateIndex / CreateTable / Describe statements, IndexColumn, ColumnDef, constraints): the
+   names they define or designate are plain strings no extractor reads; the carried query / expressions are nodes of
+   their own, reached through Children(). *)
 Definition table_names (t : qn) : list string :=
   match q_kind t with
   | KSelect => names_of (kids_of SFrom t) ++ names_of (flat_map (kids_of SRight) (kids_of SJoins t))
